@@ -136,7 +136,8 @@ fn check_sort_merge(inputs: &[(f64, u64)], out: &[(f64, u64)], ctx: &str, rep: &
         }
     }
     let expect: Vec<(f64, u64)> = merged.iter().map(|(v, n)| (v * *n as f64, *n)).collect();
-    if out.len() != expect.len() || out.iter().zip(&expect).any(|(a, b)| a.0.to_bits() != b.0.to_bits() || a.1 != b.1) {
+    // (-0.0 and 0.0 are the same value: either sign may be reported for a run of zeros)
+    if out.len() != expect.len() || out.iter().zip(&expect).any(|(a, b)| !(a.0.to_bits() == b.0.to_bits() || (a.0 == 0.0 && b.0 == 0.0)) || a.1 != b.1) {
         let first = out.iter().zip(&expect).position(|(a, b)| a != b);
         rep.violation(
             "sort-and-merge-output-differs",
@@ -374,6 +375,22 @@ fn aligned_round(rng: &mut Rng, bounds: &[u64], rep: &Report) -> bool {
 }
 
 /// every boundary of the (4,64) layout below 2^53 (scaled), computed from the formula
+/// the source value's own conversion, checked against arithmetic done here (the histogram oracle
+/// takes its inputs through the source's Value impl, so that impl is checked separately)
+fn check_duration_sources<T: Value>(values: &[T], nanos: &[u128], per_unit: f64, ctx: &str, rep: &Report) -> bool {
+    for (v, n) in values.iter().zip(nanos) {
+        let got = contributions(v);
+        let want = *n as f64 / per_unit;
+        let ok = got.len() == 1 && got[0].1 == 1 && (got[0].0 - want).abs() <= want.abs() * 1e-12;
+        if !ok {
+            rep.violation("source-value-conversion-wrong", json!({"what": "a Duration source does not contribute its exact length (to 1e-12 relative) in the declared unit", "ctx": ctx, "nanoseconds": n.to_string(), "units_per_nanosecond": 1.0 / per_unit, "contributed": format!("{got:?}"), "expected_value": want}));
+            return false;
+        }
+    }
+    rep.count("duration_conversions_checked", values.len() as u64);
+    true
+}
+
 fn boundaries() -> Vec<u64> {
     let mut b: Vec<u64> = (0..32).collect();
     for k in 5..53u32 {
@@ -398,7 +415,7 @@ fn gen_value(rng: &mut Rng, bounds: &[u64]) -> f64 {
         }
         1 => rng.f64() / 32.0,              // linear region, dense
         2 => (rng.below(64) as f64) / 1024.0, // exactly representable small
-        3 => 0.0,
+        3 => if rng.bool() { 0.0 } else { -0.0 }, // negative zero is not a negative value
         _ => {
             // log-uniform in [2^-12, 2^43)
             let e = rng.f64() * 55.0 - 12.0;
@@ -427,15 +444,20 @@ fn run_random(rng: &mut Rng, bounds: &[u64], rep: &Report) -> bool {
         3 => {
             // Duration reports fractional milliseconds
             let v: Vec<Duration> = (0..n).map(|_| Duration::from_nanos((gen_value(rng, bounds).min(8.0e12) * 1000.0) as u64)).collect();
-            case(&v, true, &ctx, rep)
+            let nanos: Vec<u128> = v.iter().map(|d| d.as_nanos()).collect();
+            check_duration_sources(&v, &nanos, 1e6, &ctx, rep) && case(&v, true, &ctx, rep)
         }
         4 => {
-            let v: Vec<AsSeconds<Duration>> = (0..n).map(|_| AsSeconds::from(Duration::from_micros((gen_value(rng, bounds).min(8.0e12)) as u64))).collect();
-            case(&v, true, &ctx, rep)
+            let d: Vec<Duration> = (0..n).map(|_| Duration::from_nanos((gen_value(rng, bounds).min(8.0e12) * 1000.0) as u64 + rng.below(1000))).collect();
+            let nanos: Vec<u128> = d.iter().map(|d| d.as_nanos()).collect();
+            let v: Vec<AsSeconds<Duration>> = d.into_iter().map(AsSeconds::from).collect();
+            check_duration_sources(&v, &nanos, 1e9, &ctx, rep) && case(&v, true, &ctx, rep)
         }
         5 => {
-            let v: Vec<AsMicroseconds<Duration>> = (0..n).map(|_| AsMicroseconds::from(Duration::from_micros((gen_value(rng, bounds).min(8.0e9)) as u64))).collect();
-            case(&v, true, &ctx, rep)
+            let d: Vec<Duration> = (0..n).map(|_| Duration::from_nanos((gen_value(rng, bounds).min(8.0e9) * 1000.0) as u64 + rng.below(1000))).collect();
+            let nanos: Vec<u128> = d.iter().map(|d| d.as_nanos()).collect();
+            let v: Vec<AsMicroseconds<Duration>> = d.into_iter().map(AsMicroseconds::from).collect();
+            check_duration_sources(&v, &nanos, 1e3, &ctx, rep) && case(&v, true, &ctx, rep)
         }
         6 => {
             // repeated observations with small counts (also through sort-and-merge)
